@@ -66,15 +66,21 @@ CLAIMED = {
    text="Machine-checked Coq theorems over the writer model: opening for append re-hydrates exactly the directory the reader "
         "model parses (same find_eocd / get_directory_counts / parse_cd), keeps every byte of the sink, positions it on the "
         "old directory start, keeps the archive comment and sets the raw flag that protects the last old entry; the record "
-        "re-emitted for an old entry carries its name, method, CRC, sizes, time, attributes, made-by and header offset.  "
+        "re-emitted for an old entry carries its name, method, CRC, sizes, time, attributes, made-by and header offset and is "
+        "decoded by the reader to those values (central-record round trip).  C13_old_bytes_preserved: for EVERY sequence "
+        "of writer calls after new_append (any arguments, legal or not, any results), every compressor and checksum, on "
+        "every sink that splits writes arbitrarily but does not fail, the bytes in front of the old directory are never "
+        "touched (invariant over the whole writer state machine, Proofs/FloorInv.v: the cursor never goes below the old "
+        "directory start and header patching only addresses records started behind it); C13_failing_sink_refuted shows by "
+        "computation that the failure-free hypothesis cannot be dropped.  "
         "Histories are carried by the correspondence: base -> (append k entries, maybe replace the comment, finish)* with up "
         "to 4 (thorough 8) rounds over bases from the crate, the independent builder (prefix, forced ZIP64 records and extras, "
         "data descriptors, CP437 names, encrypted neighbour, entry comments), CPython zipfile and the empty archive; each "
         "round's bytes equal the model's; oracle after every round through by_index_raw on old and new archive: old "
-        "entries unchanged and in order (name, method, sizes, CRC, time, mode, stored bytes, header offset), new entries "
+        "entries unchanged and in order (name, method, sizes, CRC, time, mode, stored bytes, header offset; byte span header..data identical in place), new entries "
         "follow and decode to what was written, comment kept unless replaced (found and fixed D19: stale end record).",
-   note="Trusted: Coq kernel, extraction+driver, harness, genzip.py/zipfile as base producers, CPython zlib/bz2. PARTIAL: 'old bytes are never touched by any call sequence' and the reader-level theorem over appended archives are not yet proved; multi-round preservation is decided per generated history.",
-   technique="Coq proof (state established by new_append, re-emitted record fields) + byte-exact multi-round append correspondence with by_index_raw oracle",
+   note="Trusted: Coq kernel, extraction+driver, harness, genzip.py/zipfile as base producers, CPython zlib/bz2. PARTIAL: the reader-level theorem over appended archives (old entries listed first with the same fields, for all histories) is not proved end to end; multi-round preservation of the listing is decided per generated history.",
+   technique="Coq proof (state established by new_append, re-emitted record round trip, old-bytes invariant over all call sequences) + byte-exact multi-round append correspondence with by_index_raw oracle",
    design="8 (C13)"),
  "C14": dict(
    text="Machine-checked Coq theorem over the writer model, for every writer state whose previous entry closes onto a "
